@@ -18,7 +18,7 @@ ASSUMPTIONS = ['scale and rate factors are powers of two (exact commutation; sta
 SCALES = [2.0 ** -50, 2.0 ** -10, 2.0, 2.0 ** 40]
 SCALES_T = [2.0 ** -50, 2.0 ** -30, 2.0 ** -10, 2.0 ** -3, 2.0, 2.0 ** 10, 2.0 ** 40]
 FULL = [False]
-RATES = [.5, 2.0, 4.0]
+RATES = [.5, 2.0, 4.0, 16.0, 128.0]       # up to fs = 8192 Hz with a low band edge of 768 Hz: absolute-time constants (1 ms, 50 ms, 60 Hz) bite somewhere
 VOLT = ('volt_peak', 'volt_trough', 'volt_rise', 'volt_decay', 'volt_amp', 'band_amp')
 
 
@@ -147,7 +147,7 @@ def eval_tiny(case):
     return OK(outcome=table_hash(base), nontrivial=len(base) >= 1, evals=nev)
 
 
-OPTS_Q = [(), ('trough',), ('amp',), ('amp', 'trough'), ('nc2',), ('b5', 'trough'), ('ns.5',), ('dc5',)]
+OPTS_Q = [(), ('trough',), ('amp',), ('amp', 'trough'), ('nc2',), ('b5', 'trough'), ('ns.5',), ('dc5',), ('band7_16',), ('band5_12', 'amp')]
 
 
 def spaces(tier, seed):
@@ -159,6 +159,9 @@ def spaces(tier, seed):
                         bounds={'letters': al, 'scales': SCALES, 'rates': RATES}),
            ProductSpace('W(4,5)xopts', S.word_dims(S.alphabet(4), 5) + [OPTS_Q[1:]], evaluate,
                         bounds={'letters': S.alphabet(4), 'scales': SCALES, 'rates': RATES})]
+    from bcmc.explore import ListSpace
+    out.append(ListSpace('long-recordings', S.long_cases(['@B', '@E'], [(), ('amp',)]) + S.long_cases(['@C'], [('trough',)]), evaluate,
+                         describe='long real-valued recordings (fs 1000 band 13-30, fs 500 band 8-12, fs 1017.25) x scale and rate factors'))
     if tier != 'quick':
         al = S.alphabet(4, seed, extra=2)
         devs = [d for d in S.option_sets(2, ['trough', 'amp', 'nc2', 'ns.5', 'b1', 'b5', 'band5_12', 'band7_16', 'thr1', 'dc5', 'neg'])]
